@@ -35,6 +35,8 @@ FIXED = [
      "get_terminal_map() memoized for the life of the interpreter: a pty allocated later is unknown"),
     ("C07", ["cpu_times_wrong:after_procfs_switch", "cpu_times_exception:TypeError:after_procfs_switch"],
      "fix: cpu_times() kept the field layout of another PROCFS_PATH", "PROCFS_PATH moved to a procfs with another CPU field count and back"),
+    ("C08", ["vm_exception:BytesWarning"], "fix: virtual_memory() raised BytesWarning under python -bb",
+     "python -bb, MemAvailable absent/0 and one of Active(file)/Inactive(file)/SReclaimable absent -> virtual_memory() raises BytesWarning instead of the free + cached fallback"),
     ("C10", ["value_mismatch:alternating_perdisk", "total_mismatch:alternating_perdisk", "counter_decreased:alternating_perdisk",
              "value_mismatch:after_all_devices_vanished", "total_mismatch:after_all_devices_vanished",
              "counter_decreased:after_all_devices_vanished"],
